@@ -11,8 +11,17 @@ from .c07 import TFMIN, chain_rows
 ID = 'C12'
 
 
-def _template(ctx, kind, side, exch='futures', data=()):
+def _template(ctx, kind, side, exch='futures', data=(), rows=None, k=3):
     long = side == 'long'
+    if kind == 'T1e1':
+        # enters at market at the second execution of the strategy (the end of the second chunk) with symbolic exits on either
+        # side of that price: whatever the first minutes of the previous chunk did (a spike that reverted inside the chunk) must
+        # not reach them in the chunk that follows
+        pent = rows[2 * k - 1][2]
+        sl = ctx.real('sl', 50, 200)
+        tp = ctx.real('tp', 50, 200)
+        ctx.constrain(And(sl < pent - 1, tp > pent + 1) if long else And(sl > pent + 1, tp < pent - 1))
+        return S.make_template(side=side, entry=None, stop=sl, take=tp, qty=1.0, name='T1e1', entry_step=1)
     if kind == 'T7d':
         # the entry decision reads the data route: enter at market when the last completed candle of the (largest) data-route
         # timeframe is bullish (long) / bearish (short); exits far away
@@ -87,7 +96,7 @@ def h_pair(ctx, n=6, tf='3m', kind='T1', side='long', exch='futures', data=(), s
     """normal then fast run of the same symbolic session on one path.  Minutes listed in `sym` are symbolic; the others are
     flat at the previous close."""
     rows = S.sparse_rows(ctx, n, list(sym), move=move, gaps=list(gaps))
-    T = _template(ctx, kind, side, exch, data)
+    T = _template(ctx, kind, side, exch, data, rows=rows, k=TFMIN[tf])
     cfg = S.config_dict(exch, leverage=2, mode='cross', fee=0.001, balance=10000.0)
     droutes = [(S.SYMBOL, t) for t in data]
     rec_n = S.run_session(S.make_candles(rows), T, cfg, timeframe=tf, data_routes=droutes, fast=False)
@@ -145,6 +154,7 @@ def _jobs(tier):
         add(n=9, tf='3m', kind='T1h', side='long', sym=[1, 4, 7])  # an order priced from position.pnl read in the fill hook
         add(n=7, tf='3m', kind='T1', side='long', sym=[1, 4, 6])  # session length that is not a multiple of the trading timeframe
         add(n=8, tf='3m', kind='T1late', side='long', sym=[4, 7])  # a strategy that would act on the trailing, still forming candle
+        add(n=9, tf='3m', kind='T1e1', side='long', sym=[3, 4])  # a spike in the first minute of a chunk that reverts inside it (seed C12e)
     else:
         for side in ('long', 'short'):
             add(n=6, tf='3m', kind='T1', side=side, sym=[1, 4])
@@ -164,6 +174,10 @@ def _jobs(tier):
         add(n=8, tf='3m', kind='T1', side='short', sym=[2, 5, 7])
         add(n=8, tf='3m', kind='T1late', side='long', sym=[4, 7])
         add(n=7, tf='3m', kind='T1late', side='short', sym=[3, 6])
+        for side in ('long', 'short'):
+            add(n=9, tf='3m', kind='T1e1', side=side, sym=[3, 4])
+            add(n=9, tf='3m', kind='T1e1', side=side, sym=[3, 5, 7])
+        add(n=15, tf='5m', kind='T1e1', side='long', sym=[5, 6])
         add(n=9, tf='3m', kind='T1h', side='short', sym=[2, 4, 8])
         add(n=9, tf='3m', kind='T7d', side='long', data=['5m'], sym=[2, 7])
         add(n=12, tf='3m', kind='T7d', side='short', data=['5m'], sym=[3, 6, 8])
